@@ -183,12 +183,12 @@ type stream struct {
 	done   chan struct{}
 	client *transport.ClientStream
 
-	mu        sync.Mutex
-	got       []byte // bytes the application obtained, in order (5-byte headers included)
-	inCall    bool   // the reader is inside ReadMessageHeader/Read
-	goal      int    // stream offset the current call completes at
-	readErr   error
-	opened    bool
+	mu      sync.Mutex
+	got     []byte // bytes the application obtained, in order (5-byte headers included)
+	inCall  bool   // the reader is inside ReadMessageHeader/Read
+	goal    int    // stream offset the current call completes at
+	readErr error
+	opened  bool
 }
 
 type exec struct {
@@ -551,7 +551,7 @@ type outcome struct {
 
 	acks           int  // PING acks the peer sent
 	iwsLowered     bool // grpc-go sent a SETTINGS_INITIAL_WINDOW_SIZE lower than its previous one
-	silentAfterAck bool // grpc-go wrote nothing after the peer's last PING ack
+	closedNoGoAway bool // grpc-go closed the connection without sending GOAWAY (its writer died)
 }
 
 func runPlan(t *testing.T, p Plan) (out outcome) {
@@ -691,25 +691,27 @@ func runPlan(t *testing.T, p Plan) (out outcome) {
 		{
 			// evidence for the known shape "BDP estimate below a configured window"
 			prev := int64(-1)
-			lastAck, lastIn := -1, -1
-			for _, f := range e.led.Frames() {
-				if f.Dir == h2peer.In {
-					lastIn = f.Seq
-					if f.Type == http2.FrameSettings && !f.IsAck() {
-						for _, st := range f.Settings {
-							if st.ID == http2.SettingInitialWindowSize {
-								if prev >= 0 && int64(st.Val) < prev {
-									out.iwsLowered = true
-								}
-								prev = int64(st.Val)
+			goAway := false
+			for _, f := range e.led.FramesOf(h2peer.In, 0, true) {
+				if f.Type == http2.FrameGoAway {
+					goAway = true
+				}
+				if f.Type == http2.FrameSettings && !f.IsAck() {
+					for _, st := range f.Settings {
+						if st.ID == http2.SettingInitialWindowSize {
+							if prev >= 0 && int64(st.Val) < prev {
+								out.iwsLowered = true
 							}
+							prev = int64(st.Val)
 						}
 					}
-				} else if f.Type == http2.FramePing && f.IsAck() {
-					lastAck = f.Seq
 				}
 			}
-			out.silentAfterAck = lastAck >= 0 && lastIn < lastAck
+			select {
+			case <-e.peer.Done():
+				out.closedNoGoAway = !goAway
+			default:
+			}
 		}
 		if os.Getenv("VERIF_DEBUG") != "" {
 			for _, f := range e.led.Frames() {
@@ -791,7 +793,7 @@ func signature(p Plan, out outcome) string {
 	if !comboBDPConfigured(p) || out.acks == 0 {
 		return ""
 	}
-	if (p.ConnWin > 65535 && out.silentAfterAck) || (p.StreamWin > 65535 && out.iwsLowered) {
+	if (p.ConnWin > 65535 && out.closedNoGoAway) || (p.StreamWin > 65535 && out.iwsLowered) {
 		return sigBDPShrink
 	}
 	return ""
